@@ -20,13 +20,18 @@
 //   <t> a<i> exit <failed>        on_exit callback
 //   <t> ctl issue <off|on> <res>  controller about to call turn_off/turn_on
 //   <t> sig <off|on> <res>        Host/Link on_onoff signal
+//   <t> a<i> mid <k>              exec / sendto are two simcalls (start, then wait): the actor resumed after the first one
+//   <t> phase                     a new scheduling round starts (the first actor of the run list resumed): all simcalls
+//                                 issued before this line have been handled, in the order of their issue lines
 //   <t> done a<i>.<k> <STATE>     the activity created by op k of actor i was seen finished (kernel state)
 //   <t> deadlock <a<i>.<k>>*      Engine::on_deadlock: the actors blocked in an op
 //   <t> end                       Engine::run returned
 #include <simgrid/s4u.hpp>
 #include <simgrid/kernel/ProfileBuilder.hpp>
 #include <simgrid/Exception.hpp>
+#include "src/kernel/EngineImpl.hpp"
 #include "src/kernel/activity/ActivityImpl.hpp"
+#include "src/kernel/actor/ActorImpl.hpp"
 
 #include <cstdio>
 #include <cstring>
@@ -116,12 +121,11 @@ static bool parse_case(const std::string& line, Case& c)
 // ------------------------------------------------------------------ logging
 static std::vector<std::string> g_log;
 struct Handle {
-  sg4::ActivityPtr act;
+  simgrid::kernel::activity::ActivityImplPtr impl; // keeps the kernel object alive, so that its address stays unique
   int actor, op;
   bool reported = false;
 };
 static std::vector<Handle>* g_handles                                   = new std::vector<Handle>(); // leaked on purpose
-static std::set<const simgrid::kernel::activity::ActivityImpl*>* g_seen = new std::set<const simgrid::kernel::activity::ActivityImpl*>();
 
 static void emit(const std::string& s)
 {
@@ -129,22 +133,42 @@ static void emit(const std::string& s)
   snprintf(buf, sizeof buf, "%a ", sg4::Engine::get_clock());
   g_log.push_back(std::string(buf) + s);
 }
+static std::map<long, int>* g_pid2idx = new std::map<long, int>();
+static std::vector<int> g_cur_op; // per actor: op issued and not returned (-1: none)
+static std::set<const simgrid::kernel::activity::ActivityImpl*>* g_registered =
+    new std::set<const simgrid::kernel::activity::ActivityImpl*>();
+
+static void add_handle(simgrid::kernel::activity::ActivityImpl* impl, int actor, int op)
+{
+  if (impl == nullptr || g_registered->count(impl))
+    return;
+  g_registered->insert(impl);
+  g_handles->push_back({simgrid::kernel::activity::ActivityImplPtr(impl), actor, op});
+}
+// every activity an actor is blocked on gets a handle too (named after the blocked op), so that every completion is seen
+static void register_waiting()
+{
+  auto* engine = simgrid::kernel::EngineImpl::get_instance();
+  for (auto const& [pid, actor] : engine->get_actor_list()) {
+    auto it = g_pid2idx->find(pid);
+    if (it == g_pid2idx->end() || g_cur_op[it->second] < 0)
+      continue;
+    for (auto const& act : actor->waiting_synchros_)
+      add_handle(act.get(), it->second, g_cur_op[it->second]);
+  }
+}
 static void scan()
 {
   using simgrid::kernel::activity::State;
+  register_waiting();
   for (auto& h : *g_handles) {
     if (h.reported)
       continue;
-    auto* impl = h.act->get_impl();
-    if (impl == nullptr)
-      continue;
+    auto* impl = h.impl.get();
     State st = impl->get_state();
     if (st == State::WAITING || st == State::READY || st == State::RUNNING)
       continue;
     h.reported = true;
-    if (g_seen->count(impl))
-      continue;
-    g_seen->insert(impl);
     emit("done a" + std::to_string(h.actor) + "." + std::to_string(h.op) + " " + impl->get_state_str());
   }
 }
@@ -153,12 +177,20 @@ static void logline(const std::string& s)
   scan();
   emit(s);
 }
+// called by an actor when it resumes: the first actor of the run list opens a new scheduling round ("phase")
+static void resumed()
+{
+  auto* self      = simgrid::kernel::actor::ActorImpl::self();
+  auto const& run = simgrid::kernel::EngineImpl::get_instance()->get_actors_to_run();
+  if (not run.empty() && run.front() == self)
+    logline("phase");
+}
 
 // ------------------------------------------------------------------ interpreter
 static std::vector<sg4::Host*> g_hosts;
 static std::vector<sg4::Link*> g_links;
+static std::vector<sg4::Mailbox*> g_mbox;
 static int g_payload = 42;
-static std::vector<int> g_cur_op; // per actor: op issued and not returned (-1: none)
 static std::vector<bool> g_exited;
 
 static std::string exc_kind(const std::exception& e)
@@ -176,7 +208,11 @@ static std::string exc_kind(const std::exception& e)
 
 static void actor_code(int me, std::vector<std::string> ops)
 {
+  (*g_pid2idx)[sg4::this_actor::get_pid()] = me;
+  resumed();
   sg4::this_actor::on_exit([me](bool failed) {
+    if (g_cur_op[me] >= 0)
+      resumed(); // killed while blocked in a simcall: this is where the actor resumes
     g_exited[me] = true;
     logline("a" + std::to_string(me) + " exit " + (failed ? "1" : "0"));
   });
@@ -191,20 +227,20 @@ static void actor_code(int me, std::vector<std::string> ops)
     try {
       const std::string& o = p[0];
       if (o == "put") {
-        sg4::Mailbox::by_name("mb" + p[1])->put(&g_payload, atoi(p[2].c_str()));
+        g_mbox.at(atoi(p[1].c_str()))->put(&g_payload, atoi(p[2].c_str()));
       } else if (o == "get") {
-        sg4::Mailbox::by_name("mb" + p[1])->get<int>();
+        g_mbox.at(atoi(p[1].c_str()))->get<int>();
       } else if (o == "iput") {
-        auto c             = sg4::Mailbox::by_name("mb" + p[1])->put_async(&g_payload, atoi(p[2].c_str()));
+        auto c             = g_mbox.at(atoi(p[1].c_str()))->put_async(&g_payload, atoi(p[2].c_str()));
         slots[atoi(p[3].c_str())] = c;
-        g_handles->push_back({c, me, (int)k});
+        add_handle(c->get_impl(), me, (int)k);
       } else if (o == "iget") {
         int** buf = new int*(nullptr);
-        auto c    = sg4::Mailbox::by_name("mb" + p[1])->get_async<int>(buf);
+        auto c    = g_mbox.at(atoi(p[1].c_str()))->get_async<int>(buf);
         slots[atoi(p[2].c_str())] = c;
-        g_handles->push_back({c, me, (int)k});
+        add_handle(c->get_impl(), me, (int)k);
       } else if (o == "dput") {
-        sg4::Mailbox::by_name("mb" + p[1])->put_init(&g_payload, atoi(p[2].c_str()))->detach();
+        g_mbox.at(atoi(p[1].c_str()))->put_init(&g_payload, atoi(p[2].c_str()))->detach();
       } else if (o == "wait") {
         auto it = slots.find(atoi(p[1].c_str()));
         if (it != slots.end())
@@ -236,16 +272,27 @@ static void actor_code(int me, std::vector<std::string> ops)
               res = "ok." + std::to_string(id);
         }
       } else if (o == "exec") {
-        g_hosts.at(atoi(p[1].c_str()))->execute(atof(p[2].c_str()));
+        // Host::execute is two simcalls (start, wait): make the intermediate resume visible
+        auto e = sg4::Exec::init()->set_flops_amount(atof(p[2].c_str()))->set_host(g_hosts.at(atoi(p[1].c_str())));
+        e->start();
+        add_handle(e->get_impl(), me, (int)k);
+        resumed();
+        logline(A + " mid " + std::to_string(k));
+        e->wait();
       } else if (o == "iexec") {
         auto e = sg4::Exec::init()->set_flops_amount(atof(p[2].c_str()))->set_host(g_hosts.at(atoi(p[1].c_str())));
         e->start();
         slots[atoi(p[3].c_str())] = e;
-        g_handles->push_back({e, me, (int)k});
+        add_handle(e->get_impl(), me, (int)k);
       } else if (o == "sleep") {
         sg4::this_actor::sleep_for(atoi(p[1].c_str()) / 16.0);
       } else if (o == "sendto") {
-        sg4::Comm::sendto(g_hosts.at(atoi(p[1].c_str())), g_hosts.at(atoi(p[2].c_str())), atoi(p[3].c_str()));
+        // Comm::sendto is two simcalls (start, wait)
+        auto c = sg4::Comm::sendto_async(g_hosts.at(atoi(p[1].c_str())), g_hosts.at(atoi(p[2].c_str())), atoi(p[3].c_str()));
+        add_handle(c->get_impl(), me, (int)k);
+        resumed();
+        logline(A + " mid " + std::to_string(k));
+        c->wait();
       } else {
         res = "badop";
       }
@@ -254,6 +301,7 @@ static void actor_code(int me, std::vector<std::string> ops)
     } catch (const std::exception& e) {
       res = exc_kind(e);
     }
+    resumed();
     g_cur_op[me] = -1;
     logline(A + " ret " + std::to_string(k) + " " + res);
   }
@@ -266,9 +314,11 @@ static std::string res_name(const Fault& f)
 
 static void controller(std::vector<Fault> faults)
 {
+  resumed();
   for (auto const& f : faults) {
     if (f.date > sg4::Engine::get_clock())
       sg4::this_actor::sleep_until(f.date);
+    resumed();
     logline(std::string("ctl issue ") + (f.on ? "on " : "off ") + res_name(f));
     if (f.host) {
       if (f.on)
@@ -281,6 +331,7 @@ static void controller(std::vector<Fault> faults)
       else
         g_links.at(f.idx)->turn_off();
     }
+    resumed();
   }
 }
 
@@ -321,9 +372,12 @@ static int run_case(const Case& c, std::string& out)
     zone->add_route(g_hosts.at(i), g_hosts.at(j), v);
   }
   zone->seal();
+  for (int i = 0; i < 8; i++)
+    g_mbox.push_back(sg4::Mailbox::by_name("mb" + std::to_string(i)));
 
   sg4::Host::on_onoff_cb([](sg4::Host const& h) { logline(std::string("sig ") + (h.is_on() ? "on " : "off ") + h.get_cname()); });
   sg4::Link::on_onoff_cb([](sg4::Link const& l) { logline(std::string("sig ") + (l.is_on() ? "on " : "off ") + l.get_cname()); });
+  sg4::Engine::on_time_advance_cb([](double) { register_waiting(); });
   sg4::Engine::on_deadlock_cb([&c]() {
     std::string s = "deadlock";
     for (size_t i = 0; i < c.actors.size(); i++)
